@@ -1,6 +1,9 @@
 // C12: gadget decomposition: balanced digits, recomposition bound, input restored, position independence,
 //      vectorised == scalar (digest compared across builds by the check)
 #include "vh.hpp"
+#include <thread>
+#include <atomic>
+#include <sched.h>
 VH_MAIN_GLOBALS
 using namespace vh;
 
@@ -186,11 +189,48 @@ static void tlwe_wrapper(int k, int l, int Bgbit, int reps) {
     delete_IntPolynomial_array((k + 1) * l, res); delete_TLweSample(s); delete_TGswParams(tg); delete_TLweParams(tl);
 }
 
+// several threads decompose at the same time, each under its own layout and ring degree (nothing the function derives from its
+// parameters may be shared between calls); every polynomial is judged by a thread-local copy of the oracle
+static void threads_mode(uint64_t seed, int T, int iters) {
+    const Layout lay[] = {{3, 7}, {2, 10}, {4, 8}, {1, 16}, {6, 5}, {2, 16}, {8, 4}, {5, 6}, {16, 2}, {3, 10}, {7, 4}, {2, 5}};
+    const int Ns[] = {1024, 512, 1024, 64, 2048, 1024, 16, 1024};
+    std::atomic<uint64_t> bad{0}, polys{0}; std::atomic<int> ready{0};
+    struct Wit { int l, Bgbit, N, pos; uint32_t x; const char *what; }; std::vector<Wit> wit(T, Wit{0, 0, 0, 0, 0, nullptr});
+    std::vector<std::thread> th;
+    for (int t = 0; t < T; t++) th.emplace_back([&, t] {
+        Rng r(seed * 7907 + t); const int l = lay[t % 12].l, Bgbit = lay[t % 12].Bgbit, N = Ns[t % 8];
+        Decomp D(N, 1, l, Bgbit);
+        std::vector<uint32_t> vals(N);
+        ready++; while (ready.load() < T) sched_yield();
+        for (int it = 0; it < iters; it++) {
+            int cls = it % 3;
+            for (int j = 0; j < N; j++) { uint32_t v = cls == 0 ? r.u32() : cls == 1 ? (r.below(8) == 0 ? r.u32() : 0u) : (uint32_t) ((r.u32() << (32 - Bgbit)) - D.my_offset + (uint32_t) r.range(-2, 2)); vals[j] = v; D.in->coefsT[j] = (int32_t) v; }
+            tGswTorus32PolynomialDecompH(D.res, D.in, D.tg);
+            const char *what = nullptr; int pos = 0;
+            for (int j = 0; j < N && !what; j++) {
+                if ((uint32_t) D.in->coefsT[j] != vals[j]) { what = "input-modified"; pos = j; break; }
+                uint32_t rec = 0; for (int p = 0; p < l; p++) { int32_t d = D.res[p].coefs[j]; if (d < -(int32_t) D.half || d >= (int32_t) D.half) { what = "digit-range"; pos = j; break; } rec += (uint32_t) d << (32 - (p + 1) * Bgbit); }
+                if (what) break;
+                uint32_t diff = vals[j] - rec, unit = l * Bgbit >= 32 ? 1u : 1u << (32 - l * Bgbit);
+                if (!((diff < unit) || (0u - diff) < unit)) { what = "recompose"; pos = j; }
+            }
+            polys++;
+            if (what && bad++ == 0) wit[t] = Wit{l, Bgbit, N, pos, vals[pos], what};
+        }
+    });
+    for (auto &x: th) x.join();
+    out.evaluations += polys.load();
+    if (bad.load()) for (auto &w: wit) if (w.what) { out.viol(std::string("decomp:") + w.what + ":when-threads-use-different-layouts", J().i("l", w.l).i("Bgbit", w.Bgbit).i("N", w.N).i("position", w.pos).u("x", w.x).i("threads", T).u("bad_polynomials", bad.load())); break; }
+    char cell[96]; snprintf(cell, sizeof cell, "threads:%d-threads-each-with-its-own-layout", T); out.cell(cell, polys.load());
+    out.sample(J().s("mode", "threads").i("threads", T).i("polynomials_per_thread", iters));
+}
+
 int main(int argc, char **argv) {
     Args args(argc, argv);
     out.open(args.s("out", "-"));
     install_crash_handler();
     uint64_t seed = args.i("seed", 1);
+    if (args.s("mode", "") == "threads") { rng.reseed(seed + 99); threads_mode(seed, args.i("threads", 12), args.i("iters", 400)); out.finish(); return 0; }
     int shard = args.i("shard", 0), nshards = args.i("nshards", 1);
     int l = args.i("l", 3), Bgbit = args.i("Bgbit", 7), lg = args.i("log2count", 26);
     int N = args.i("N", 1024);
